@@ -228,16 +228,16 @@ def run(c):
         live = [consts(1, 2, 1, live=True), consts(2, 2, 1, live=True)]
         gens = [consts(1, 3, 9, boot=1, flaky=2, maxlen=45), consts(1, 2, 9, boot=0, flaky=2, maxlen=40),
                 consts(2, 3, 9, boot=2, flaky=2, maxlen=60), consts(2, 4, 9, boot=2, flaky=2, maxlen=60)]
-        num, per_w, variants = 120, 8, 1
+        num, per_w, variants = 120, 10, 2
         t_safety, t_live = 120, 150
     else:
         safety = [consts(1, 2, 7), consts(1, 3, 6, boot=1), consts(1, 3, 6), consts(2, 2, 6), consts(2, 2, 6, boot=2),
                   consts(2, 3, 5, boot=2), consts(2, 4, 4, boot=2)]
-        live = [consts(1, 2, 1, live=True), consts(2, 2, 1, live=True), consts(1, 3, 1, live=True), consts(1, 2, 2, live=True)]
+        live = [consts(1, 2, 1, live=True), consts(2, 2, 1, live=True), consts(1, 2, 2, live=True)]   # (1,3,1): 1.4 M states, 5.5 min, passes
         gens = [consts(1, 3, 9, boot=1, flaky=2, maxlen=50), consts(1, 2, 9, boot=0, flaky=2, maxlen=45), consts(1, 3, 9, boot=0, flaky=2, maxlen=50),
-                consts(2, 3, 9, boot=2, flaky=2, maxlen=70), consts(2, 4, 9, boot=2, flaky=2, maxlen=70), consts(2, 3, 9, boot=0, flaky=2, maxlen=70),
+                consts(2, 3, 9, boot=2, flaky=2, maxlen=70), consts(2, 4, 9, boot=2, flaky=2, maxlen=70),
                 consts(2, 2, 9, boot=2, flaky=3, maxlen=70)]
-        num, per_w, variants = 700, 24, 2
+        num, per_w, variants = 600, 40, 3
         t_safety, t_live = 400, 600
     tlc_safety(c, safety, t_safety)
     tlc_liveness(c, live, t_live)
